@@ -882,12 +882,50 @@ def c04_private(ctx):
             arcs = [c for c in comps if c[0] == 'call']
             if arcs and all(c[1] == 'alloc::sync::Arc::new' for c in arcs):
                 e = arcs[0]
+                if what == 'ready flag':
+                    flags_ = [c for c in arcs if render(c).replace(' ', '') in ('new(new(0))', 'new(new(1))')]
+                    e = flags_[0] if flags_ else ('call', 'alloc::sync::Arc::new', [('call', 'x', [('const', '0', 'bool')], None)], None)
         if not (e[0] == 'call' and e[1] == 'alloc::sync::Arc::new'):
             probs.append('the %s is not a fresh Arc made by this call (%s)' % (what, render(e)[:60]))
+        elif what == 'ready flag' and not render(e).replace(' ', '').endswith('new(new(0))'):
+            probs.append('the ready flag does not start out false (%s)' % render(e)[:40])
     if probs:
         out.append(bad(R, key, '; '.join(probs) + ': the wait of this call can be ended by somebody else\'s completion, and sync() returns (or panics on its empty result slot) without having run its closure', fn=sb.name))
     else:
         out.append(ok(R, key, 'condition variable and ready flag are `Arc::new(..)` of this call; the flag starts false', fn=sb.name))
+    # the result slot: whatever shared pointer the queued job captures was made by this call (sync_drain and sync_background alike)
+    for name in (S + 'sync_drain', S + 'sync_background'):
+        fn = ctx.F.fn(name)
+        key = '%s|result-slot-created-by-the-call' % short(name)
+        if not fn:
+            continue
+        jobs = calls(fn, 'desync::Job::new') or calls(fn, 'Job::new')
+        if len(jobs) != 1:
+            out.append(undecided(R, key, 'Job::new call not found'))
+            continue
+        e = fn.expr_of_operand(jobs[0][1]['args'][0])
+        if e[0] != 'agg' or e[1] != 'closure':
+            out.append(undecided(R, key, 'the job is not a closure literal'))
+            continue
+
+        def strip(x):
+            while x[0] == 'call' and x[1].endswith('::clone') and x[2]:
+                x = x[2][0]
+            if x[0] in ('field', 'downcast') and expr_root(x)[0] == 'agg':
+                comps = [strip(c) for c in expr_root(x)[3]]
+                arcs = [c for c in comps if c[0] == 'call']
+                if arcs and all(c[1] == 'alloc::sync::Arc::new' for c in arcs):
+                    return arcs[0]
+            return x
+        shared = [strip(c) for c in e[3]]
+        foreign = [c for c in shared if c[0] == 'call' and c[1] != 'alloc::sync::Arc::new']
+        fresh = [c for c in shared if c[0] == 'call' and c[1] == 'alloc::sync::Arc::new']
+        if foreign:
+            out.append(bad(R, key, 'the queued job writes its result into an object that this call did not create (%s): two calls can see each other\'s results' % render(foreign[0])[:60], fn=fn.name))
+        elif fresh:
+            out.append(ok(R, key, 'the job captures only `Arc::new(..)` objects of this call (and the caller\'s closure)', fn=fn.name))
+        else:
+            out.append(undecided(R, key, 'no shared result slot captured by the job'))
     return out
 
 
